@@ -766,9 +766,76 @@ func (g *exprGen) extrapolationQuery() *query {
 	return q
 }
 
+// threeRecordQuery: a range function (every *_over_time incl. avg, rate / increase / delta) whose
+// window spans all three containers of a series of a two-files + memtable layout: the samples of ONE
+// window reach the range-vector cursor in three records.
+func (g *exprGen) threeRecordQuery() *query {
+	if len(g.set.cuts) != 2 {
+		return nil
+	}
+	c1, c2 := g.set.cuts[0], g.set.cuts[1]
+	var cands []int
+	for si, sr := range g.set.series {
+		n := [3]int{}
+		for _, p := range sr.points {
+			switch {
+			case p.t <= c1:
+				n[0]++
+			case p.t <= c2:
+				n[1]++
+			default:
+				n[2]++
+			}
+		}
+		if n[0] > 0 && n[1] > 0 && n[2] > 0 {
+			cands = append(cands, si)
+		}
+	}
+	if len(cands) == 0 {
+		return nil
+	}
+	sr := &g.set.series[cands[g.r.Intn(len(cands))]]
+	var before, after []int64
+	for _, p := range sr.points {
+		if p.t <= c1 {
+			before = append(before, p.t)
+		} else if p.t > c2 {
+			after = append(after, p.t)
+		}
+	}
+	ws := before[g.r.Intn(len(before))] - int64(g.r.Intn(3))
+	t := after[g.r.Intn(len(after))] + int64(g.r.Intn(20_000))
+	sel := &selector{}
+	for _, l := range sr.labels {
+		if l.name == "__name__" {
+			sel.matchers = append(sel.matchers, matcher{label: "__name__", kind: "eq", lit: l.value})
+		}
+	}
+	if g.r.Chance(50) { // the one series, or every series of the metric
+		for _, l := range sr.labels {
+			if l.name != "__name__" {
+				sel.matchers = append(sel.matchers, matcher{label: l.name, kind: "eq", lit: l.value})
+			}
+		}
+	}
+	fns := []string{"avg_over_time", "avg_over_time", "sum_over_time", "count_over_time", "min_over_time", "max_over_time", "last_over_time", "rate", "increase", "delta", "irate"}
+	var e expr = &rangeFn{fn: g.pick(fns), sel: sel, rng: t - ws}
+	q := &query{e: e, text: e.text(), start: t, end: t, lb: lookbackMs}
+	if g.r.Chance(30) {
+		q.step = []int64{15_000, 60_000, 7_000}[g.r.Intn(3)]
+		q.end = q.start + q.step*int64(1+g.r.Intn(3))
+	}
+	return q
+}
+
 func (g *exprGen) genQuery(avoid bool) *query {
 	g.hint = nil
 	g.avoid = avoid
+	if len(g.set.cuts) == 2 && g.r.Chance(25) {
+		if q := g.threeRecordQuery(); q != nil {
+			return q
+		}
+	}
 	if g.r.Chance(8) {
 		if q := g.extrapolationQuery(); q != nil {
 			return q
